@@ -19,6 +19,10 @@ let bits (v : bool list) : string =
     | [] -> ()
     | _ -> failwith "bits" in
   go v; Buffer.contents b
+let units_of_hex h =
+  if h = "-" then [] else
+  List.init (String.length h / 4) (fun i -> n_of_int (int_of_string ("0x" ^ String.sub h (4 * i) 4)))
+let hex_of_units l = if l = [] then "-" else String.concat "" (List.map (fun u -> Printf.sprintf "%04x" (int_of_n u)) l)
 let range256 = List.init 256 (fun i -> i)
 let named_ok name l = match valid_named name l N0 with NRes (ok, _) -> ok | _ -> failwith "fallback"
 (* valid_named = lookup + tester; for the 256/513-fold cases the lookup is done once per line *)
@@ -92,4 +96,20 @@ let () = main_loop (function
       let f stop = match utf_to_utf stop l with
         | Some (Some o) -> hex_of_bytes o | Some None -> "throw" | None -> "MODEL-OUT-OF-FUEL" in
       "u2u " ^ f false ^ " " ^ f true
+  | ["d16"; h] ->
+      let l = units_of_hex h in
+      "d16 " ^ fmt_res (List.length l) (u16_decode l)
+  | ["e16"; cp] ->
+      let c = n_of_int (int_of_string ("0x" ^ cp)) in
+      Printf.sprintf "e16 %s %d" (hex_of_units (u16_encode c)) (int_of_z (u16_width c))
+  | ["c816"; h] ->
+      let l = bytes_of_hex h in
+      let f stop = match utf8_to_utf16 stop l with
+        | Some (Some o) -> hex_of_units o | Some None -> "throw" | None -> "MODEL-OUT-OF-FUEL" in
+      "c816 " ^ f false ^ " " ^ f true
+  | ["c168"; h] ->
+      let l = units_of_hex h in
+      let f stop = match utf16_to_utf8 stop l with
+        | Some (Some o) -> hex_of_bytes o | Some None -> "throw" | None -> "MODEL-OUT-OF-FUEL" in
+      "c168 " ^ f false ^ " " ^ f true
   | _ -> "BAD-CASE")
